@@ -5,7 +5,7 @@ usage: tools/mut.py <mutant-name|all> [--ids C01,C08] [--tier quick]
 Mutants live in /verif/mutants/mutants.json: {name: {"breaks": [ids], "edits": [[file, old, new], ...], "note": ""}}"""
 import json, subprocess, sys, os, time
 V = os.path.dirname(os.path.dirname(os.path.abspath(__file__)))
-REPO = "/repo"
+REPO = os.environ.get("PV_REPO", "/repo")
 M = json.load(open(os.path.join(V, "mutants", "mutants.json")))
 
 def sh(cmd, **kw):
